@@ -35,7 +35,8 @@ import ObiVerif.Driver.Util
 * `cmd obiclean <side-scenario> <n> <N> fasta`: the side files of obiclean (`--save-ratio`, `--save-graph`), `N` = size
   of the side file at fault on a run without fault: `Model/WriteSide.lean` `exitSide` (the side files are written by
   `main` before the writer of the sequences starts; the ratio table through a `bufio.Writer` in calls of about 50 bytes,
-  a graph file in one `WriteString`)
+  a graph file in one `WriteString`); scenario `both<S>-<g>-<r>`: both options, `S` graph files one of which may be at
+  fault (`full<X>` / `isdir<X>`), then the table (`ok` / `full` / `nodir`): status 0 iff every side file is fine
 * `cmd <command> <scenario> …` a real command in a subprocess; `nofault…` scenarios must exit 0, all the others
   non-zero (process model with one failing writer); scenarios containing `dyn-`: the failing output is written by a
   goroutine that registers its pipe itself under a cover taken by `main` (`Model/WriteReg.lean`): the dynamic model is
@@ -282,7 +283,27 @@ def runSide (sc : String) (n : Nat) : String :=
     | "nofault-side-ratio" => some [⟨true, good, table⟩]
     | "nofault-side-graph" => some [⟨false, good, graph⟩, ⟨false, good, graph⟩]
     | "nofault-side-both" => some [⟨false, good, graph⟩, ⟨false, good, graph⟩, ⟨true, good, table⟩]
-    | _ => none
+    | _ =>
+      -- `both<S>-<g>-<r>`: S graph files (one of them at fault unless <g> = ok), then the ratio table
+      match sc.splitOn "-" with
+      | [b, g, r] =>
+        let ns : Option Nat := if b == "both2" then some 2 else if b == "both3" then some 3 else none
+        let rs : Option Slot :=
+          if r == "ok" then some good else if r == "full" then some full else if r == "nodir" then some closed else none
+        let gs : Option (Slot × Nat) :=          -- the slot of the faulted graph and the index of its sample
+          let idx (x : String) : Nat := if x == "A" then 0 else if x == "B" then 1 else if x == "C" then 2 else 9
+          if g == "ok" then some (good, 0)
+          else if g.startsWith "full" then some (full, idx (g.drop 4).toString)
+          else if g.startsWith "isdir" then some (closed, idx (g.drop 5).toString)
+          else none
+        match ns, rs, gs with
+        | some ns, some rs, some (gslot, gi) =>
+          if gi < ns then
+            some ((List.range ns).map (fun i => (⟨false, if i == gi then gslot else good, graph⟩ : WriteSide.Side))
+              ++ [⟨true, rs, table⟩])
+          else none
+        | _, _, _ => none
+      | _ => none
   match sides with
   | none => "bad-op"
   | some sides =>
